@@ -83,7 +83,7 @@ type stateFn struct {
 }
 
 func CheckC01(run *evid.Run) {
-	nh := pick(run.Tier, 150, 4000)
+	nh := pick(run.Tier, 600, 6000)
 	twins := pick(run.Tier, 4, 8)
 	maxSteps := pick(run.Tier, 40, 80)
 	run.Rule = "seeded histories (8 shapes: mixed, widefork, diamond, lopsided, ring, repeat, twins, overlap) over 2-6 replicas and 1-4 writers (every 3rd history shares writers), default and hash-tiebreak orderings; each history executed as T replay twins whose exchange is completed in a different way (random pairs to fixpoint, star, chain, reverse chain, via temporary log, every merge twice, ring rounds, partial merges interleaved with appends); a history is non-trivial iff it reached a state with >=2 heads and had a merge that added entries; distinct = canonical digest of the final DAG shape"
@@ -323,7 +323,7 @@ func c01Twin(run *evid.Run, h *hx.History, twin int, table map[string]*stateFn, 
 // ---------------------------------------------------------------- C02
 
 func CheckC02(run *evid.Run) {
-	nh := pick(run.Tier, 400, 20000)
+	nh := pick(run.Tier, 3000, 40000)
 	run.Rule = "every prefix state of seeded histories (8 shapes incl. 'overlap': merges of already-merged logs, into ancestors/descendants, partially overlapping forks, three-way merges where one side's head is interior on the other); after each step heads are recomputed by the model from GetEntries(); non-trivial iff the history reached a state with >=2 heads and a merge added entries; distinct = final DAG shape digest"
 	opts := hx.GenOpts{MaxSteps: pick(run.Tier, 40, 80), Orders: []string{"default", "hash"}}
 	parallel(nh, func(i int) {
@@ -443,8 +443,8 @@ func toStringPayloads(l *ipfslog.IPFSLog) []string {
 }
 
 func CheckC03(run *evid.Run) {
-	nh := pick(run.Tier, 300, 12000)
-	nshape := pick(run.Tier, 60, 1500)
+	nh := pick(run.Tier, 1500, 20000)
+	nshape := pick(run.Tier, 240, 3000)
 	run.Rule = "every prefix state of seeded histories under three orderings (default when (clock id,time) pairs are distinct, hash-tiebreak, harness-supplied reverse-hash tiebreak), plus shape-directed DAGs (width-k forks joined by one entry, ladders of diamonds, combs, many heads at equal clock time); values checked for duplicates, completeness, causal order, strict ascent and equality with the model linearisation, on Values(), ToSnapshot().Values and ToString; states whose ordering is not a strict total order are counted and skipped; non-trivial iff >=2 heads seen and a merge added entries; distinct = final DAG shape digest"
 	opts := hx.GenOpts{MaxSteps: pick(run.Tier, 40, 80), Orders: []string{"default", "hash", "revhash"}}
 	parallel(nh+nshape, func(i int) {
